@@ -41,7 +41,7 @@ package csync
 //@   props C01 C02
 //@   opt frame = skip
 //@   requires ctx != nil
-//@   opt dead = ret3
+//@   opt dead = ret1
 //@   ghost init status: mxl(status) := m
 //@   ensures held: result1 == nil ==> aint(status) == 1 && grant(status) == m
 //@   ensures fn: result1 == nil ==> result0 != nil
